@@ -50,11 +50,14 @@ DoReuseUsedBit        == UnsafeOn /\ Apply(ReuseUsedBit(old, new))
 DoBareToUnion         == UnsafeOn /\ Apply(BareToUnion(old, new))
 DoChangeExplicitTag   == UndocOn /\ Apply(ChangeExplicitTag(old, new))
 DoAppendFieldOnSetBit == UndocOn /\ Apply(AppendFieldOnSetBit(old, new))
+DoDropExplicitTag     == UndocOn /\ Apply(DropExplicitTag(old, new))
+DoAddExplicitTag      == UndocOn /\ Apply(AddExplicitTag(old, new))
 
 Next == \/ DoAppendMaskedField \/ DoAppendConstructor \/ DoAddType \/ DoAddFunction \/ DoAppendFunctionMaskAndArgs
         \/ DoRemoveConstructor \/ DoRemoveFunction \/ DoRemoveField \/ DoRemoveTemplateArg \/ DoChangeFieldType
         \/ DoChangeMaskRef \/ DoChangeMaskBit \/ DoAddMaskToField \/ DoRemoveMaskFromField \/ DoAppendUnmaskedField
         \/ DoReuseUsedBit \/ DoBareToUnion \/ DoChangeExplicitTag \/ DoAppendFieldOnSetBit
+        \/ DoDropExplicitTag \/ DoAddExplicitTag
 
 AllSafe == \A i \in 1..Len(log) : log[i].safe
 OneUnsafe == Len(log) = 1 /\ ~log[1].safe /\ ~log[1].benign
